@@ -15,7 +15,7 @@ CONTRACTS = {
     Q + "StringUtils::TrimLeft": C(buffers={"str": "end_offset"},
                                    ensures={"offset": [("inc",), ("le", "end_offset")]},
                                    notes="used by JSON and expressions"),
-    Q + "StringUtils::TrimRight": C(buffers={"str": "end_offset@entry"},
+    Q + "StringUtils::TrimRight": C(buffers={"str": "end_offset@entry"}, ensures={"end_offset": [("dec",)]},
                                     notes="descending scan, lower guard end_offset > offset"),
     Q + "StringUtils::IsEqual": C(buffers={"left": "length", "right": "length"}),
     Q + "StringUtils::IsLess": C(buffers={"left": "left_length", "right": "right_length"}),
@@ -36,6 +36,39 @@ CONTRACTS = {
                                   ensures={"offset": [("inc",), ("le", "end_offset")]}),
     # ---- JSON
     Q + "JSONUtils::UnEscape": C(buffers={"content": "length"}),
+    # ---- Finder / Template
+    Q + "Finder::Next": C(buffers={"f:content_": "f:length_"}, invariants=[("f:offset_", "f:length_", 0)],
+                          foreign={"word": "static word table, indices decided by TB-words",
+                                   "group_list": "static group table, indices decided by TB-words"},
+                          notes="class invariant offset_ <= length_ (SetOffset arguments are checked at call sites)"),
+    Q + "TemplateCore::parse": C(buffers={"content": "length"},
+                                 requires=[("finder.GetOffset()", "length", 0)],  # fresh finder: offset_ == 0
+                                 objects={"finder": {
+                                     # justified by FIND-next on Finder::Next: (a) offset_ <= length_ is preserved,
+                                     # (b) match_ != 0 on exit implies offset_ <= length_ whatever the entry state
+                                     "Next": {"havoc": ["GetOffset()", "GetMatch()"],
+                                              "le": [("GetOffset()", "length")],
+                                              "implies": [("GetMatch()", "GetOffset()", "length")]},
+                                     "SetOffset": {"set": ("GetOffset()", 0)}}},
+                                 foreign={"TagPatterns::IfPrefix": "constant index 0 into a pattern literal (TB-patterns)"}),
+    Q + "TemplateCore::parseLoopAttributes": C(buffers={"content": "end_offset"}, onepast={"content"},
+                                               notes="end_offset is the position of the closing '>' found by the caller: "
+                                                     "the unit at end_offset is readable (proven at the call site)"),
+    Q + "TemplateCore::parseIfCase": C(buffers={"content": "end_offset"},
+                                       ensures={"offset": [("inc",)], "case_offset": [("le", "end_offset")],
+                                                "case_end_offset": [("le", "end_offset")]}),
+    Q + "TemplateCore::parseExpressions": C(buffers={"content": "end_offset"}),
+    Q + "TemplateCore::parseValue": C(buffers={"content": "end_offset@entry"}),
+    Q + "TemplateCore::getOperation": C(buffers={"content": "end_offset"},
+                                        ensures={"offset": [("inc",), ("le", "end_offset")]}),
+    Q + "TemplateCore::isExpression": C(buffers={"content": "offset@entry"}, notes="descending scan guarded by offset != 0"),
+    Q + "TemplateCore::getValue": C(buffers={"id": "length"}, onepast={"id"},
+                                    foreign={"loops_items_->Storage()": "loop-item index: IDX-ensure rule"},
+                                    notes="id = content_ + variable.Offset, length = variable.Length; the unit at "
+                                          "id[length] is readable because every variable reference is followed by '}' "
+                                          "or a quote inside the template buffer (tag grammar; recorded assumption)"),
+    Q + "TemplateCore::renderSuperVariable": C(buffers={"content": "length"},
+                                               notes="phrase scan over the value's string (content,length set by SetCharAndLength)"),
     Q + "JSONUtils::Escape": C(buffers={"content": "length"}),
     Q + "JSON::JSONParser::Parse": C(buffers={"content": "length"}),
     Q + "JSON::JSONParser::parseValue": C(buffers={"content": "length"},
